@@ -39,7 +39,7 @@ UNOPS = {ast.Not: "UNot", ast.Invert: "UInv", ast.USub: "UNeg"}
 BUILTIN_EXC = ["EOFError", "OSError", "TimeoutError", "ValueError", "IndexError", "KeyError", "TypeError", "AttributeError",
                "OverflowError", "StopIteration", "Exception"]
 LIB_EXC = ["RTCMMessageError", "RTCMParseError", "RTCMStreamError", "RTCMTypeError"]
-BUILTINS = ["len", "bytes", "bytearray", "int", "min", "isinstance", "staticmethod", "property"]
+BUILTINS = ["len", "bytes", "bytearray", "int", "str", "min", "isinstance", "getattr", "setattr", "super", "staticmethod", "property"]
 CONST_MODULE = "pyrtcm.rtcmtypes_core"
 
 SPEC = {
@@ -58,6 +58,20 @@ SPEC = {
         "static": ["parse"],
         "ext": {"calc_crc24q": ("pyrtcm.rtcmhelpers", "calc_crc24q"), "RTCMMessage": ("pyrtcm.rtcmmessage", "RTCMMessage"),
                 "getLogger": ("logging", "getLogger"), "socket": ("socket", "socket"), "SocketWrapper": ("pyrtcm.socketwrapper", "SocketWrapper")},
+        "exc_alias": {},
+        "zconsts": {},
+    },
+    "msg": {
+        "file": "rtcmmessage.py", "cls": "RTCMMessage",
+        "methods": ["__init__", "_get_dict", "_do_unknown", "identity", "payload", "ismsm", "serialize", "__setattr__"],
+        "static": [],
+        "props": ["identity", "payload", "ismsm"],
+        "abstract": ["_do_attributes"],          # called but not translated: the theorems take its behaviour as a parameter
+        "setattr_mode": True,                     # the class overrides __setattr__: every attribute assignment is a call of it
+        "ext": {"crc2bytes": ("pyrtcm.rtcmhelpers", "crc2bytes"), "len2bytes": ("pyrtcm.rtcmhelpers", "len2bytes")},
+        # read-only module tables, by the module that must bind them: X[k] and X.get(k, d) are questions to the environment
+        "tables": {"RTCM_MSGIDS": "pyrtcm.rtcmtypes_core", "RTCM_PAYLOADS_GET": "pyrtcm.rtcmtypes_get",
+                   "RTCM_PAYLOADS_GET_MSM": "pyrtcm.rtcmtypes_get_msm", "RTCM_PAYLOADS_GET_IGS": "pyrtcm.rtcmtypes_get_igs"},
         "exc_alias": {},
         "zconsts": {},
     },
@@ -146,6 +160,14 @@ class Ctx:
                     self.ext[f] = name
             except Unsupported:
                 pass
+        self.tables = {}
+        for t, mod in spec.get("tables", {}).items():
+            try:
+                imported_once(self.tree, self.binds, t, mod, self.path)
+                if t not in self.glob:
+                    self.tables[t] = t
+            except Unsupported:
+                pass
         self.builtins = [b for b in BUILTINS if self.binds.get(b, 0) == 0 and b not in self.glob]
         # ---- the class
         cname = spec["cls"]
@@ -162,9 +184,13 @@ class Ctx:
             if not isinstance(n, ast.FunctionDef):
                 raise Unsupported("%s: class %s body holds something other than method definitions (line %d)" % (self.path, cname, n.lineno))
         cb = scope_bindings(cls.body, self.path)
+        self.setattr_mode = bool(spec.get("setattr_mode"))
         for n in ("__getattr__", "__getattribute__", "__setattr__", "__delattr__", "__slots__"):
-            if cb.get(n, 0) != 0:
+            if cb.get(n, 0) != 0 and not (n == "__setattr__" and self.setattr_mode):
                 raise Unsupported("%s: %s defined in class %s" % (self.path, n, cname))
+        if self.setattr_mode and cb.get("__setattr__", 0) != 1:
+            raise Unsupported("%s: class %s is expected to define __setattr__ exactly once" % (self.path, cname))
+        self.reserved = sorted(cb)          # every name bound in the class body
         self.defs = {}
         for n in body:
             if cb.get(n.name, 0) != 1:
@@ -179,6 +205,8 @@ class Ctx:
                 raise Unsupported("%s: attribute of class %s assigned (line %d)" % (self.path, cname, n.lineno))
         for n in ast.walk(self.tree):
             if isinstance(n, ast.Call) and isinstance(n.func, ast.Name) and n.func.id in ("setattr", "delattr", "exec", "eval", "globals", "vars"):
+                if (n.func.id == "setattr" and self.setattr_mode and n.args and isinstance(n.args[0], ast.Name) and n.args[0].id == "self"):
+                    continue          # setattr(self, ..) in a class whose __setattr__ is translated: an ordinary attribute assignment
                 raise Unsupported("%s: call of %s (line %d)" % (self.path, n.func.id, n.lineno))
 
 
@@ -191,7 +219,10 @@ class Meth:
             raise Unsupported("%s.%s is not defined exactly once in the class body" % (ctx.spec["cls"], name))
         self.node = node
         self.static = name in ctx.spec["static"]
-        want = ["staticmethod"] if self.static else []
+        self.isprop = name in ctx.spec.get("props", [])
+        want = ["staticmethod"] if self.static else (["property"] if self.isprop else [])
+        if self.isprop and "property" not in ctx.builtins:
+            raise Unsupported("%s: property rebound" % name)
         if [ast.dump(d) for d in node.decorator_list] != [ast.dump(ast.Name(id=d, ctx=ast.Load())) for d in want]:
             raise Unsupported("%s: decorators" % name)
         if self.static and "staticmethod" not in ctx.builtins:
@@ -284,6 +315,9 @@ class Meth:
                 return "(EStr %s)" % cstr(self.ctx.modname)
             raise U("free name %s" % e.id)
         if isinstance(e, ast.Attribute) and isinstance(e.ctx, ast.Load) and self.is_self(e.value):
+            if e.attr in self.ctx.spec.get("props", []) and e.attr in self.ctx.spec["methods"]:
+                self.calls.add(e.attr)                      # a property: reading it calls the method
+                return "(ECallM %s [])" % cstr(e.attr)
             if e.attr in self.ctx.defs:
                 raise U("method %s used as a value" % e.attr)
             return "(ESelf %s)" % cstr(e.attr)
@@ -316,7 +350,29 @@ class Meth:
                 return "(ESlice %s %s %s)" % (self.expr(e.value), optexpr(lo), optexpr(hi))
             if isinstance(sl, ast.Tuple):
                 raise U("tuple subscript")
+            if isinstance(e.value, ast.Name) and e.value.id in self.ctx.tables and not self.is_local(e.value.id):
+                return "(ECallX {| c_name := %s; c_kw := [] |} [%s])" % (cstr(e.value.id + "[]"), self.expr(sl))
             return "(EIndex %s %s)" % (self.expr(e.value), self.expr(sl))
+        if isinstance(e, ast.JoinedStr) and not getattr(self, "_text_ctx", False):
+            # an f-string whose VALUE matters: literal text, {e} and {e:0Nd}, joined left to right
+            parts = []
+            for v in e.values:
+                if isinstance(v, ast.Constant) and isinstance(v.value, str):
+                    parts.append("(EStr %s)" % cstr(v.value))
+                elif isinstance(v, ast.FormattedValue) and v.conversion == -1 and v.format_spec is None:
+                    parts.append("(ECallB BStrOf [%s])" % self.expr(v.value))
+                elif (isinstance(v, ast.FormattedValue) and v.conversion == -1 and isinstance(v.format_spec, ast.JoinedStr)
+                      and len(v.format_spec.values) == 1 and isinstance(v.format_spec.values[0], ast.Constant)
+                      and v.format_spec.values[0].value in ("02d", "03d")):
+                    parts.append("(ECallB (BFmtD %d) [%s])" % (int(v.format_spec.values[0].value[1]), self.expr(v.value)))
+                else:
+                    raise U("f-string piece")
+            if not parts:
+                return '(EStr "")'
+            out = parts[0]
+            for q in parts[1:]:
+                out = "(EBin OAdd %s %s)" % (out, q)
+            return out
         if isinstance(e, ast.JoinedStr):
             parts = []
             for v in e.values:
@@ -359,12 +415,38 @@ class Meth:
             if f.id in self.ctx.exc:
                 if kws:
                     raise U("keyword argument of an exception")
-                return "(EExcNew %s %s)" % (cstr(self.ctx.exc[f.id]), self.exprs(e.args))
+                self._text_ctx = True            # the arguments of an exception are message text: evaluated, value not modelled
+                try:
+                    return "(EExcNew %s %s)" % (cstr(self.ctx.exc[f.id]), self.exprs(e.args))
+                finally:
+                    self._text_ctx = False
+            if f.id == "str" and "str" in self.ctx.builtins and len(e.args) == 1 and not kws:
+                return "(ECallB BStrOf [%s])" % self.expr(e.args[0])
+            if (f.id == "getattr" and "getattr" in self.ctx.builtins and len(e.args) in (2, 3) and not kws and self.is_self(e.args[0])
+                    and self.ctx.setattr_mode):
+                d = "(Some %s)" % self.expr(e.args[2]) if len(e.args) == 3 else "None"
+                return "(EGetattrSelf %s %s %s)" % (self.ctx.reserved_term, self.expr(e.args[1]), d)
+            if (f.id == "setattr" and "setattr" in self.ctx.builtins and len(e.args) == 3 and not kws and self.is_self(e.args[0])
+                    and self.ctx.setattr_mode):
+                return "(ESetattrSelf %s %s %s)" % (self.ctx.reserved_term, self.expr(e.args[1]), self.expr(e.args[2]))
             if f.id in self.ctx.ext and f.id != "BytesIO":
                 sig = "{| c_name := %s; c_kw := %s |}" % (cstr(self.ctx.ext[f.id]), coqlist([cstr(k) for k, _ in kws]))
                 return "(ECallX %s %s)" % (sig, self.exprs(list(e.args) + [v for _, v in kws]))
             raise U("call of %s" % f.id)
         if isinstance(f, ast.Attribute):
+            # super().__setattr__(name, value): object's own __setattr__ (the class has no bases)
+            if (f.attr == "__setattr__" and isinstance(f.value, ast.Call) and isinstance(f.value.func, ast.Name) and f.value.func.id == "super"
+                    and not f.value.args and not f.value.keywords and "super" in self.ctx.builtins and not self.is_local("super")
+                    and self.ctx.setattr_mode and len(e.args) == 2 and not kws and self.selfname is not None):
+                return "(ESuperSetattr %s %s)" % (self.expr(e.args[0]), self.expr(e.args[1]))
+            # TABLE.get(k, d)
+            if (f.attr == "get" and isinstance(f.value, ast.Name) and f.value.id in self.ctx.tables and not self.is_local(f.value.id)
+                    and len(e.args) == 2 and not kws):
+                return "(ECallX {| c_name := %s; c_kw := [] |} %s)" % (cstr(f.value.id + ".get"), self.exprs(e.args))
+            # int.from_bytes(x, "big")
+            if (isinstance(f.value, ast.Name) and f.value.id == "int" and not self.is_local("int") and "int" in self.ctx.builtins
+                    and f.attr == "from_bytes" and len(e.args) == 2 and isinstance(e.args[1], ast.Constant) and e.args[1].value == "big" and not kws):
+                return "(ECallB BFromBig [%s])" % self.expr(e.args[0])
             # int.from_bytes(x, "little", signed=False)
             if (isinstance(f.value, ast.Name) and f.value.id == "int" and not self.is_local("int") and "int" in self.ctx.builtins
                     and f.attr == "from_bytes" and len(e.args) == 2 and isinstance(e.args[1], ast.Constant) and e.args[1].value == "little"
@@ -384,7 +466,11 @@ class Meth:
                     raise U("method of a method")
                 if kws:
                     raise U("keyword argument to an environment method")
-                return "(ECallRef (ESelf %s) %s %s)" % (cstr(f.value.attr), cstr(f.attr), self.exprs(e.args))
+                self._text_ctx = True            # arguments of a logger call are message text
+                try:
+                    return "(ECallRef (ESelf %s) %s %s)" % (cstr(f.value.attr), cstr(f.attr), self.exprs(e.args))
+                finally:
+                    self._text_ctx = False
             # <local>.readline() / <local>.read(n) / <expr>.strip()
             if isinstance(f.value, ast.Name) and self.is_local(f.value.id) and not kws:
                 if f.attr == "readline" and not e.args:
@@ -397,8 +483,12 @@ class Meth:
 
     def mcall(self, m, args, kws, U):
         callee = self.ctx.defs.get(m)
+        if callee is not None and m in self.ctx.spec.get("abstract", []) and not args and not kws:
+            return "(ECallM %s [])" % cstr(m)      # not linked: its behaviour is a parameter of the theorems
         if callee is None or m not in self.ctx.spec["methods"]:
             raise U("call of a method that is not translated: %s" % m)
+        if m in self.ctx.spec.get("props", []):
+            raise U("call of a property")
         static = m in self.ctx.spec["static"]
         a = callee.args
         if a.posonlyargs or a.kwonlyargs or a.vararg or a.kwarg:
@@ -450,6 +540,8 @@ class Meth:
                 raise Unsupported("%s: store to %s" % (self.name, t.id))
             return "(TVar %s)" % cstr(t.id)
         if isinstance(t, ast.Attribute) and isinstance(t.value, ast.Name) and t.value.id == self.selfname and self.selfname is not None:
+            if self.ctx.setattr_mode:
+                raise Unsupported("%s: attribute target inside a tuple / augmented assignment in a class that overrides __setattr__" % self.name)
             if t.attr in self.ctx.defs:
                 raise Unsupported("%s: store to method name %s" % (self.name, t.attr))
             return "(TSelf %s)" % cstr(t.attr)
@@ -472,6 +564,10 @@ class Meth:
         return coqlist(out)
 
     def stmt(self, s):
+        if (isinstance(s, ast.Assign) and self.ctx.setattr_mode and len(s.targets) == 1 and isinstance(s.targets[0], ast.Attribute)
+                and isinstance(s.targets[0].value, ast.Name) and s.targets[0].value.id == self.selfname and self.selfname is not None):
+            # self.x = v  in a class that overrides __setattr__
+            return "SExpr (ESetattrSelf %s (EStr %s) %s)" % (self.ctx.reserved_term, cstr(s.targets[0].attr), self.expr(s.value))
         if isinstance(s, ast.Assign):
             if len(s.targets) != 1:
                 raise Unsupported("%s: chained assignment" % self.name)
@@ -528,6 +624,11 @@ def check_self_uses(m):
     for n in ast.walk(m.node):
         if isinstance(n, ast.Attribute) and isinstance(n.value, ast.Name) and n.value.id == m.selfname:
             ok.add(id(n.value))
+    if m.ctx.setattr_mode:
+        for n in ast.walk(m.node):
+            if (isinstance(n, ast.Call) and isinstance(n.func, ast.Name) and n.func.id in ("getattr", "setattr") and n.args
+                    and isinstance(n.args[0], ast.Name) and n.args[0].id == m.selfname):
+                ok.add(id(n.args[0]))
     for n in ast.walk(m.node):
         if isinstance(n, ast.Name) and n.id == m.selfname and id(n) not in ok:
             raise Unsupported("%s: use of self other than self.<attr> (line %d)" % (m.name, n.lineno))
@@ -536,6 +637,10 @@ def check_self_uses(m):
 def translate(repo, key, out):
     spec = SPEC[key]
     ctx = Ctx(repo, spec)
+    ctx.reserved_term = "srco_%s_reserved" % key
+    if ctx.setattr_mode:
+        out.append("(* every name bound in the body of class %s *)" % spec["cls"])
+        out.append("Definition srco_%s_reserved : list string := %s." % (key, coqlist([cstr(x) for x in ctx.reserved])))
     meths = {}
     for name in spec["methods"]:
         m = Meth(ctx, name)
@@ -559,6 +664,11 @@ def translate(repo, key, out):
     for name in spec["methods"]:
         visit(name)
     order.reverse()              # callers first, callees later
+    if ctx.setattr_mode:
+        if meths["__setattr__"].calls:
+            raise Unsupported("__setattr__ calls other methods")
+        order.remove("__setattr__")
+        order.append("__setattr__")
     used = set()
     for m in meths.values():
         for n in ast.walk(m.node):
@@ -581,7 +691,7 @@ def translate(repo, key, out):
 
 def main():
     repo = os.environ.get("VERIF_REPO", "/repo")
-    which = sys.argv[2:] or ["sock", "reader"]       # the module is named after the file: SrcOSock.v / SrcOReader.v / SrcO.v (both)
+    which = sys.argv[2:] or ["sock", "reader", "msg"]       # the module is named after the file: SrcOSock.v / SrcOReader.v / SrcO.v (both)
     out = ["(* GENERATED by tools/gen_src2.py from %s/src/pyrtcm/{socketwrapper,rtcmreader,rtcmtypes_core,exceptions}.py -- do not edit *)" % repo,
            "From Coq Require Import ZArith List String.", "From PyRtcm Require Import Src.PyO.",
            "Import ListNotations.", "Open Scope string_scope.", "Open Scope Z_scope.", ""]
